@@ -1057,6 +1057,8 @@ where
                     result.union_operand(first.clone());
                     ClassSetOperator::Intersection
                 } else {
+                    // A single '&' is an ordinary character; the first operand is still part of the union.
+                    result.union_operand(first.clone());
                     result.codepoints.add_one(0x26 /* & */);
                     ClassSetOperator::Union
                 }
